@@ -4,6 +4,7 @@ package c03
 
 import (
 	"fmt"
+	"strings"
 	"reflect"
 	"time"
 
@@ -36,6 +37,7 @@ type cfg[K comparable] struct {
 	keys    []K // universe; the last one is never inserted by SetValue
 	less    func(a, b K) bool
 	maxSize int
+	bad     []K // keys on which a lookup fails (an interface key holding a value that cannot be hashed)
 }
 
 var vals = []string{"x", ""} // repeated across keys; the zero value is storable
@@ -114,6 +116,14 @@ func run[K comparable](r *engine.Rec, c *cfg[K]) {
 		}
 		for _, ks := range seqs {
 			ops = append(ops, Op{K: "GetValues", Ks: ks}, Op{K: "RemoveValues", Ks: ks})
+		}
+		if len(c.bad) > 0 {
+			// a key sequence with an unusable key in the middle: the call fails, and whatever it leaves behind must
+			// still be a catalog (index and order agreeing) in a state that a prefix of the call explains
+			for _, ks := range [][]int{{0, -1, 1}, {-1, 0}, {1, 0, -1}} {
+				ops = append(ops, Op{K: "RemoveValuesBad", Ks: ks}, Op{K: "GetValuesBad", Ks: ks})
+			}
+			ops = append(ops, Op{K: "SetValueBad"}, Op{K: "GetValueBad"}, Op{K: "RemoveValueBad"})
 		}
 		ops = append(ops, Op{K: "GetKeys"}, Op{K: "RemoveAll"}, Op{K: "SortValues"}, Op{K: "SortByValueDesc"}, Op{K: "ReverseValues"}, Op{K: "Observe"})
 		total := 1
@@ -267,6 +277,10 @@ func run[K comparable](r *engine.Rec, c *cfg[K]) {
 		keyseq := func() col.Sequential[K] {
 			var ks []K
 			for _, ki := range op.Ks {
+				if ki < 0 {
+					ks = append(ks, c.bad[0])
+					continue
+				}
 				ks = append(ks, c.keys[ki])
 			}
 			return col.List[K](common.N()).MakeFromArray(ks)
@@ -281,8 +295,16 @@ func run[K comparable](r *engine.Rec, c *cfg[K]) {
 				res = cat.RemoveValue(c.keys[op.Ki])
 			case "GetValues":
 				res = append([]string{}, cat.GetValues(keyseq()).AsArray()...)
-			case "RemoveValues":
+			case "RemoveValues", "RemoveValuesBad":
 				res = append([]string{}, cat.RemoveValues(keyseq()).AsArray()...)
+			case "GetValuesBad":
+				res = append([]string{}, cat.GetValues(keyseq()).AsArray()...)
+			case "SetValueBad":
+				cat.SetValue(c.bad[0], vals[0])
+			case "GetValueBad":
+				res = cat.GetValue(c.bad[0])
+			case "RemoveValueBad":
+				res = cat.RemoveValue(c.bad[0])
 			case "GetKeys":
 				res = append([]K{}, cat.GetKeys().AsArray()...)
 			case "RemoveAll":
@@ -415,6 +437,10 @@ func run[K comparable](r *engine.Rec, c *cfg[K]) {
 					it.GetNext()
 				}
 			})
+			if strings.HasSuffix(p.K, "Bad") {
+				m = contents(cat) // was checked to be an admissible state when this transition was first executed
+				continue
+			}
 			if o.Panicked {
 				continue
 			}
@@ -431,7 +457,41 @@ func run[K comparable](r *engine.Rec, c *cfg[K]) {
 		if o.Fuel {
 			return viol(op.K+" does not terminate", "fuel")
 		}
-		if o.Panicked {
+		if strings.HasSuffix(op.K, "Bad") {
+			if !o.Panicked {
+				return seqx.Step{} // a library that copes with such a key: nothing to compare with
+			}
+			// admissible: the catalog as it was, or with the keys in front of the unusable one removed
+			got := contents(cat)
+			adm := [][]pair[K]{m}
+			if op.K == "RemoveValuesBad" {
+				cur := m
+				for _, ki := range op.Ks {
+					if ki < 0 {
+						break
+					}
+					var nm []pair[K]
+					for _, p := range cur {
+						if p.k != c.keys[ki] {
+							nm = append(nm, p)
+						}
+					}
+					cur = nm
+					adm = append(adm, cur)
+				}
+			}
+			okState := false
+			for _, a := range adm {
+				if samePairs(got, a) {
+					okState = true
+					e = exp{m: a}
+				}
+			}
+			if !okState {
+				return viol(op.K+": a call that fails on a key it cannot use leaves associations that no prefix of the call explains", fmt.Sprintf("before %v after %v", m, got))
+			}
+			res, e.res = nil, nil
+		} else if o.Panicked {
 			return viol(op.K+" panics", o.Value)
 		}
 		r.Outcome(op.K)
@@ -565,7 +625,7 @@ func units(tier string) []engine.Unit {
 		run(r, &cfg[float64]{name: "Catalog[float64]", keys: []float64{1.5, -2, 0, 7}, less: func(a, b float64) bool { return a < b }, maxSize: 9})
 	})
 	add("any", func(r *engine.Rec) {
-		run(r, &cfg[any]{name: "Catalog[any]", keys: []any{1, int64(1), "1", 2.5}, maxSize: 9})
+		run(r, &cfg[any]{name: "Catalog[any]", keys: []any{1, int64(1), "1", 2.5}, maxSize: 9, bad: []any{[]int{1}}})
 	})
 	add("pointer", func(r *engine.Rec) {
 		x, y, z, w := 5, 5, 5, 6
